@@ -23,7 +23,7 @@ from vf import core
 PROPERTY = 'C12'
 RULE = ('exhaustive catalogue: allow in {all, remote, local, sandbox, none} x main source kind in {path, '
         'file URL, text + base_url, open binary file} x mechanism in {include, import, redefine, override, '
-        'instance location hint, locations= argument, uri_mapper} x 22 (target, spelling) pairs (inside the '
+        'instance location hint, locations= argument, uri_mapper, schema-less package API (schema found through the hint)} x 22 (target, spelling) pairs (inside the '
         'sandbox, in a sub-directory, outside, a sibling directory sharing the sandbox name as prefix, a '
         'remote URL served by a stub opener; relative, dotted, absolute, file URL, percent-encoded), XSD 1.0 '
         'and 1.1. Non-trivial: the target lies outside the allowed class, or inside it under a non-canonical '
@@ -37,7 +37,7 @@ ASSUMPTIONS = [
 XS = 'http://www.w3.org/2001/XMLSchema'
 ALLOW = ['all', 'remote', 'local', 'sandbox', 'none']
 SOURCE_KINDS = ['path', 'file_url', 'text_base_url', 'open_file']
-MECHS = ['include', 'import', 'redefine', 'override', 'hint', 'locations', 'uri_mapper']
+MECHS = ['include', 'import', 'redefine', 'override', 'hint', 'locations', 'uri_mapper', 'schemaless']
 
 _EVENTS = None
 _ROOT = None
@@ -207,6 +207,39 @@ def run_row(tree, ver, allow, skind, mech, target, spname, loc):
         with open(docp, 'w') as f:
             f.write('<r xmlns:xsi="http://www.w3.org/2001/XMLSchema-instance"><o:marker_%s xmlns:o="urn:o" '
                     'xsi:schemaLocation="urn:o %s">x</o:marker_%s></r>' % (target, loc, target))
+    if mech == 'schemaless':
+        # no schema argument: the package-level API finds the schema through the location hint of the document
+        doc2 = os.path.join(tree.sand, 'doc.xml')
+        dtext = ('<o:marker_%s xmlns:o="urn:o" xmlns:xsi="http://www.w3.org/2001/XMLSchema-instance" '
+                 'xsi:schemaLocation="urn:o %s">x</o:marker_%s>' % (target, loc, target))
+        with open(doc2, 'w') as f:
+            f.write(dtext)
+        kw = dict(allow=allow, opener=tree.opener)
+        _EVENTS = []
+        outcome = 'built'
+        try:
+            if skind == 'path':
+                src = doc2
+            elif skind == 'file_url':
+                src = 'file://' + doc2
+            elif skind == 'text_base_url':
+                src = dtext
+                kw['base_url'] = tree.sand
+            else:
+                fobj = src = open(doc2, 'rb')
+            try:
+                v = xmlschema.is_valid(src, cls=cls, **kw)
+                outcome = 'built+valid' if v else 'built+invalid'
+            except (xmlschema.XMLSchemaException, xmlschema.XMLResourceError) as e:
+                outcome = type(e).__name__
+            except Exception as e:
+                outcome = 'OTHER:' + type(e).__name__ + ':' + str(e)[:80]
+        finally:
+            ev = _EVENTS
+            _EVENTS = None
+            if fobj is not None:
+                fobj.close()
+        return outcome, (['marker_' + target] if outcome == 'built+valid' else []), ev
     _EVENTS = []
     outcome = 'built'
     markers = []
@@ -290,7 +323,7 @@ def judge(tree, ver, allow, skind, mech, target, spname, loc, st):
         c = classify_event(tree, ev)
         if c is None:
             continue
-        if c == 'main' and skind == 'open_file' and ev[1].endswith('main.xsd'):
+        if c == 'main' and skind == 'open_file' and ev[1].endswith(('main.xsd', 'doc.xml')):
             continue   # opened by the harness itself before the call
         if not allowed(allow, c):
             out.append(rec('fetch_outside_allowed_class',
@@ -301,7 +334,7 @@ def judge(tree, ver, allow, skind, mech, target, spname, loc, st):
     if not ok_target and ('marker_' + target) in markers:
         out.append(rec('denied_location_influences_schema', 'marker_%s absent' % target, markers))
     # 3. the main source itself
-    if mech == 'hint' and not ok_target and outcome == 'built+valid':
+    if mech in ('hint', 'schemaless') and not ok_target and outcome == 'built+valid':
         out.append(rec('denied_location_influences_verdict', 'document invalid (strict wildcard, no declaration)',
                        outcome))
     if main_is_url and not allowed(allow, 'main') and outcome.startswith('built'):
@@ -320,7 +353,7 @@ def rows(tree):
         for mech in MECHS:
             if mech == 'override' and ver == '10':
                 continue
-            sp, _ = tree.spellings('imp' if mech in ('import', 'hint', 'locations') else 'inc')
+            sp, _ = tree.spellings('imp' if mech in ('import', 'hint', 'locations', 'schemaless') else 'inc')
             for allow, skind in itertools.product(ALLOW, SOURCE_KINDS):
                 for target, spname, loc in sp:
                     if mech in ('locations', 'uri_mapper') and not (
